@@ -12,6 +12,8 @@ import (
 	"math/big"
 	"os"
 	"strconv"
+
+	"github.com/cosmos/gogoproto/proto"
 )
 
 type cexFile struct {
@@ -169,40 +171,36 @@ func RunNative(h func()) (failures []string, assumeViolated bool, panicked any) 
 }
 
 // ---- opaque encoding (inverse-pair codec stub) -----------------------------
-// Natively the pair is implemented with a table of deep copies made by the
-// registered copier (the real codec is used for replays that need real bytes).
-
-type encEntry struct{ v any }
-
-var encTable = map[string]any{}
-var encCount int
-
-// NativeCopier must deep-copy a message natively (set by the model package's native half).
-var NativeCopier func(x any) any
-var NativeAssign func(dst, src any) bool
+// Under the engine Encode returns an opaque handle recording a deep copy of the
+// message and Decode gives it back. Natively (replay) the real protobuf
+// encoding is used, so the replay also exercises the real codec.
 
 func Encode(x any) []byte {
-	encCount++
-	h := []byte("\xfeENC" + strconv.Itoa(encCount))
-	if NativeCopier == nil {
-		panic("verif.Encode: no native copier registered")
+	m, ok := x.(proto.Message)
+	if !ok {
+		panic("verif.Encode: not a proto.Message")
 	}
-	encTable[string(h)] = NativeCopier(x)
-	return h
+	bz, err := proto.Marshal(m)
+	if err != nil {
+		panic(err)
+	}
+	return bz
 }
 
 func Decode(bz []byte, ptr any) bool {
-	v, ok := encTable[string(bz)]
-	if !ok || NativeAssign == nil {
+	m, ok := ptr.(proto.Message)
+	if !ok {
 		return false
 	}
-	return NativeAssign(ptr, v)
+	return proto.Unmarshal(bz, m) == nil
 }
 
+// DecodeInterface natively needs an interface registry; set by the harness when used.
+var NativeDecodeInterface func(bz []byte, ptr any) bool
+
 func DecodeInterface(bz []byte, ptr any) bool {
-	v, ok := encTable[string(bz)]
-	if !ok || NativeAssign == nil {
-		return false
+	if NativeDecodeInterface == nil {
+		panic("verif.DecodeInterface: no native decoder registered")
 	}
-	return NativeAssign(ptr, v)
+	return NativeDecodeInterface(bz, ptr)
 }
